@@ -18,6 +18,8 @@ package main
 // providers are asked, and how failures are classified.
 
 import (
+	"bytes"
+	"compress/gzip"
 	"context"
 	"crypto/sha256"
 	"encoding/json"
@@ -106,6 +108,8 @@ type c14Spec struct {
 	BF      []c14BF     `json:"bf,omitempty"`
 	Fuel    int         `json:"fuel"`
 	GFuel   int         `json:"gfuel"`
+	// E2E: no Allowed table; the model gets the events' JSON and decides with C07's auth model
+	E2E bool `json:"e2e,omitempty"`
 }
 
 // ---------------------------------------------------------------- derived scenario
@@ -330,7 +334,7 @@ func (w *c14World) derive(extraAllowed [][2]interface{}, topo [][2][]int) []byte
 	}
 	for e := range sp.Texts {
 		p := w.pdu(e)
-		if p == nil {
+		if p == nil || sp.E2E {
 			continue
 		}
 		var cand []int
@@ -362,7 +366,9 @@ func (w *c14World) derive(extraAllowed [][2]interface{}, topo [][2][]int) []byte
 		}
 	}
 	for _, x := range extraAllowed {
-		emit(x[0].(int), x[1].([]int))
+		if !sp.E2E {
+			emit(x[0].(int), x[1].([]int))
+		}
 	}
 	prov := [][]interface{}{}
 	for _, sc := range sp.Prov {
@@ -410,6 +416,7 @@ func (w *c14World) derive(extraAllowed [][2]interface{}, topo [][2][]int) []byte
 		"A": w.items(sp.A), "S": w.items(sp.S), "J": sp.J, "E": sp.E, "av": c14b(sp.AV),
 		"R": w.items(sp.R), "sp": spj, "topo": topo, "vk": c14b(verr == nil),
 		"from": w.ids(sp.From), "limit": sp.Limit, "servers": servers, "bf": bf,
+		"ver": sp.Ver,
 	}
 	b, err := json.Marshal(out)
 	if err != nil {
@@ -565,6 +572,15 @@ func (w *c14World) pduIDs(l []gmsl.PDU) string {
 
 func newC14World(raw []byte) *c14World {
 	w := &c14World{names: map[string]int{}}
+	if len(raw) > 2 && raw[0] == 0x1f && raw[1] == 0x8b {
+		zr, err := gzip.NewReader(bytes.NewReader(raw))
+		if err != nil {
+			panic("c14: bad compressed scenario: " + err.Error())
+		}
+		if raw, err = io.ReadAll(zr); err != nil {
+			panic("c14: bad compressed scenario: " + err.Error())
+		}
+	}
 	if err := json.Unmarshal(raw, &w.spec); err != nil {
 		panic("c14: bad scenario: " + err.Error())
 	}
@@ -618,7 +634,9 @@ func c14Impl(args [][]byte) ([][]byte, []byte) {
 		// the table needs Allowed(join, returned state): take the state list of a separate run
 		// of CheckStateResponse (whose own correspondence is checked by the csr cases)
 		p0 := newC14Providers(w)
-		if _, s0, err := gmsl.CheckStateResponse(ctx, c14StateResp{w.rawList(sp.A), w.rawList(sp.S)}, w.ver, c14Verifier{}, w.provider(p0), c14UserID); err == nil && w.pdu(sp.J) != nil {
+		if sp.E2E {
+			// no table
+		} else if _, s0, err := gmsl.CheckStateResponse(ctx, c14StateResp{w.rawList(sp.A), w.rawList(sp.S)}, w.ver, c14Verifier{}, w.provider(p0), c14UserID); err == nil && w.pdu(sp.J) != nil {
 			extra = append(extra, [2]interface{}{sp.J, w.keptUIDs(sp.S, s0)})
 		}
 		p := newC14Providers(w)
@@ -678,7 +696,37 @@ func c14Impl(args [][]byte) ([][]byte, []byte) {
 	default:
 		panic("c14: unknown op " + sp.Op)
 	}
-	return [][]byte{args[0], w.derive(extra, topo)}, []byte(out)
+	final := [][]byte{args[0], w.derive(extra, topo)}
+	if sp.E2E {
+		final = append(final, w.eventJSONs())
+	}
+	return final, []byte(out)
+}
+
+// eventJSONs: per pool text the JSON the library keeps for the parsed event, with its event ID
+// as event_id member (the form C07's model takes); null where the text does not parse
+func (w *c14World) eventJSONs() []byte {
+	out := make([]json.RawMessage, len(w.parsed))
+	for i, p := range w.parsed {
+		out[i] = json.RawMessage("null")
+		if p.pdu == nil {
+			continue
+		}
+		var m map[string]json.RawMessage
+		if err := json.Unmarshal(p.pdu.JSON(), &m); err != nil {
+			continue
+		}
+		id, _ := json.Marshal(p.pdu.EventID())
+		m["event_id"] = id
+		if b, err := json.Marshal(m); err == nil {
+			out[i] = b
+		}
+	}
+	b, err := json.Marshal(out)
+	if err != nil {
+		panic(err)
+	}
+	return b
 }
 
 func c14Verdict(err error) string {
